@@ -598,6 +598,7 @@ type CExpr struct {
 	Args []*CExpr
 	Vars []boundVar
 	Type string // for typeassert
+	Trigs []*CExpr // explicit multi-pattern of a quantifier
 	Pos  int
 }
 
@@ -1021,7 +1022,7 @@ func (ps *cparser) parsePrimary() (*CExpr, error) {
 					if p.kind == "eof" {
 						return nil, fmt.Errorf("unterminated quantifier")
 					}
-					if p.kind == "op" && d == 0 && (p.text == "," || p.text == "::") {
+					if p.kind == "op" && d == 0 && (p.text == "," || p.text == "::" || p.text == "{") {
 						break
 					}
 					if p.kind == "op" && (p.text == "[" || p.text == "(") {
@@ -1039,6 +1040,21 @@ func (ps *cparser) parsePrimary() (*CExpr, error) {
 				}
 				break
 			}
+			var trigs []*CExpr
+			if ps.isOp("{") {
+				ps.next()
+				for !ps.isOp("}") {
+					te, err := ps.parseIff()
+					if err != nil {
+						return nil, err
+					}
+					trigs = append(trigs, te)
+					if ps.isOp(",") {
+						ps.next()
+					}
+				}
+				ps.next()
+			}
 			if err := ps.expectOp("::"); err != nil {
 				return nil, err
 			}
@@ -1046,7 +1062,7 @@ func (ps *cparser) parsePrimary() (*CExpr, error) {
 			if err != nil {
 				return nil, err
 			}
-			return &CExpr{Op: t.text, Vars: vars, Args: []*CExpr{body}}, nil
+			return &CExpr{Op: t.text, Vars: vars, Args: []*CExpr{body}, Trigs: trigs}, nil
 		}
 		return &CExpr{Op: "ident", Name: t.text}, nil
 	case "op":
